@@ -285,6 +285,22 @@ def _e2e_body(case, ctx):
     if np.any(np.abs(grid_tot + body_tot) > tol):
         raise Violation(f"{case['grid']} ({case['dtype']}): grid integral of the force density on the fluid {grid_tot.tolist()} + net force on the body "
                         f"{body_tot.tolist()} != 0 (marker force total {lag_tot.tolist()}, tol {tol:.3e})")
+    # FlowForces (the PyElastica forcing module) must add exactly the interactor's force/torque arrays to the body
+    import sopht.simulator.immersed_body as spi
+
+    class _Sys:
+        pass
+
+    sysm = _Sys()
+    sysm.external_forces = np.full_like(inter.body_flow_forces, 0.25)
+    sysm.external_torques = np.full_like(inter.body_flow_torques, -0.5)
+    with ctx.repo_call("FlowForces.apply_forces"):
+        spi.FlowForces(inter).apply_forces(sysm, time=0.0)
+    if not (np.array_equal(sysm.external_forces, 0.25 + inter.body_flow_forces)
+            and np.array_equal(sysm.external_torques, -0.5 + inter.body_flow_torques)):
+        raise Violation("FlowForces.apply_forces did not add exactly the flow forces/torques of the interactor to the body")
+    if np.any(np.abs(inter.body_flow_forces.sum(axis=1)[:dim] - body_tot) > tol):
+        raise Violation("FlowForces.apply_forces changed the net flow force although neither flow nor body moved")
     if eul_u.tobytes() != u0.tobytes():
         raise Violation("the interaction modified the flow velocity field")
     bad = bodies.body_unchanged(body, snap)
